@@ -206,7 +206,7 @@ Print Assumptions C02_digit_rs_matches_model.
    one-line functions delegates to breaks this theorem ---- *)
 From Bnum.Model Require Import Digit Core Shift AddSub Mul Div Bits Pow.
 From Bnum.Generated Require Import Glue.
-From Bnum.Proofs Require Import GlueTie.
+From Bnum.Proofs Require Import GlueTieCommon GlueTieC02.
 Theorem C02_glue_rs_matches_model :
   (forall w a b, Glue.U_checked_mul w a b = U_checked_mul w a b) /\
   (forall w a b, Glue.U_wrapping_mul w a b = U_wrapping_mul w a b) /\
